@@ -1844,6 +1844,29 @@ func c01Behaviours(c *core.Ctx, envs map[string]*rbEnv, order []string) {
 		c.Inconclusive("no behaviours from S3GwBasic: %s", res.Tail(10))
 		return
 	}
+	// the directed behaviour "alias" (a copy, then in-place attribute rewrites on either key,
+	// the other one read), replayed on every configuration
+	ares, err := tlc.Run(c.Scratch, tlc.Opts{Module: "S3GwBasic", Workers: 1,
+		CfgText: basicCfg("Spec", "alias", false, 12, `{"k1", "k2"}`, `{"A", "B", "C"}`, "INVARIANT TypeOK\nCHECK_DEADLOCK FALSE\n")})
+	if err != nil || (!ares.OK && ares.Violated != "") {
+		c.Inconclusive("S3GwBasic alias: %v %v", err, ares.Tail(20))
+		return
+	}
+	rbMergeTLC(c, ares, "S3GwBasic", "mode alias (one directed behaviour)")
+	abehs := parseBehaviours(ares.PrintLines)
+	ares.Cleanup()
+	if len(abehs) != 1 {
+		c.Inconclusive("S3GwBasic alias: %d behaviours, expected 1", len(abehs))
+		return
+	}
+	for range order {
+		behs = append(behs, abehs[0])
+	}
+	// (appended last: behaviour i goes to configuration i mod len(order); make the tail
+	// line up so that every configuration gets one copy)
+	for len(behs)%len(order) != 0 {
+		behs = append(behs[:len(behs)-len(order)], append([]gwBehaviour{behs[0]}, behs[len(behs)-len(order):]...)...)
+	}
 	var wg sync.WaitGroup
 	var mu sync.Mutex
 	total := 0
